@@ -122,7 +122,10 @@ class Recorder(object):
                 self.op(I_SETMODE, p[0], p[1], p[2], p[3], vb._font.width, vb._font.height, len(self.pages))
             self.event(E_SIG, S_SETMODE, p[0], p[1], p[2], p[3])
         elif t == sg.VIDEO_UPDATE:
-            self.event(E_SIG, S_UPDATE, p[4], p[5], p[6].height, p[6].width)
+            self.event(E_SIG, S_UPDATE, p[4], p[5], p[6].height, p[6].width,
+                       p[0], p[1], len(p[2]), len(p[2][0]) if p[2] else 0)
+            if [len(r) for r in p[2]] != [len(r) for r in p[3]]:
+                self.problems.append('update signal: text and attribute matrices differ in shape')
         elif t == sg.VIDEO_CLEAR_ROWS:
             self.event(E_SIG, S_CLEAR, p[0], p[1], p[2])
         elif t == sg.VIDEO_SCROLL:
@@ -270,10 +273,16 @@ def install():
     o_refresh = VB._refresh_dbcs
 
     def vb_refresh_dbcs(self, row, orig_start, orig_stop):
-        res = o_refresh(self, row, orig_start, orig_stop)
         r = _REC
+        before = list(self._dbcs_text[row - 1]) if r is not None else None
+        res = o_refresh(self, row, orig_start, orig_stop)
         if r is not None and r.fs_depth:
             r.widen(row, res[0], res[1])
+            # modelled assumption: the unicode cells the refresh changes lie inside the range it returns
+            after = self._dbcs_text[row - 1]
+            if len(after) != len(before) or any(
+                    a != b for i, (a, b) in enumerate(zip(before, after)) if not res[0] <= i + 1 <= res[1]):
+                r.problems.append('_refresh_dbcs changed cells outside the range it returned (row %d)' % row)
         return res
     VB._refresh_dbcs = vb_refresh_dbcs
 
@@ -311,6 +320,8 @@ def install():
         r.op(I_PIXSET, r.pidx(vb), ys[0], ys[1], xs[0], xs[1], data if isinstance(data, int) else -1)
         if self._pixels is not vb._pixels:
             r.problems.append('_PixelAccess wraps a stale pixel matrix')
+        if vb._dbcs_enabled:
+            r.problems.append('pixel write on a page with DBCS text enabled (modelled: blank cells, no row refresh)')
         r.active += 1
         try:
             return o_pa_set(self, index, data)
@@ -647,14 +658,14 @@ def op_term(o):
     if code == I_PIXSET:
         return 'OPixSet %s %s zimg' % (nat(args[0]), ' '.join(_z(a) for a in args[1:]))
     if code == I_UPDATE:
-        return 'OUpdate %s %s %s zimg' % (nat(args[0]), ' '.join(_z(a) for a in args[1:]), _ws(ws))
+        return 'OUpdate %s %s %s tblank zimg' % (nat(args[0]), ' '.join(_z(a) for a in args[1:]), _ws(ws))
     if code == I_LOCK:
         return 'OLock %s' % nat(args[0])
     if code == I_UNLOCK:
-        return 'OUnlock %s %s zimg' % (nat(args[0]), _ws(ws))
+        return 'OUnlock %s %s tblank zimg' % (nat(args[0]), _ws(ws))
     if code in (I_CLEAR, I_SCRUP, I_SCRDN):
         name = {I_CLEAR: 'OClearRows', I_SCRUP: 'OScrollUp', I_SCRDN: 'OScrollDown'}[code]
-        return '%s %s %s %s zimg' % (name, nat(args[0]), ' '.join(_z(a) for a in args[1:]), _ws(ws))
+        return '%s %s %s %s tblank zimg' % (name, nat(args[0]), ' '.join(_z(a) for a in args[1:]), _ws(ws))
     if code == I_COPY:
         return 'OCopyFrom %s %s' % (nat(args[0]), nat(args[1]))
     if code == I_SETPAGE:
@@ -691,13 +702,18 @@ class C35(core.Check):
         'abstracted, monitored at run time: text rendering writes only inside the pixel area of the cells it '
         'is asked to draw (harness flags any write outside); glyph/attribute/DBCS content is arbitrary in '
         'the theorems',
-        'character cells (unicode text carried by the signals vs Session.get_chars) are compared by the '
-        'oracle only, not proved',
+        '_refresh_dbcs changes unicode cells only inside the range it returns, and pixel writes happen only on '
+        'pages without DBCS text (both monitored at run time)',
     ]
-    PARTIAL = ('pixel layer proved; character-cell layer by correspondence/oracle only. Envelope of the theorems '
-               '(checked on every recorded op): arguments inside the screen, no pending dirty text row inside a '
-               'cleared row range, scroll range non-empty (scroll_down: from <= to+1) and inside the pixel matrix (excludes a scroll through text row 25 '
-               'of the 348-line Hercules mode, unreachable: VIEW PRINT to 25 is Tandy/PCjr only).')
+    PARTIAL = ('pixel layer and unicode character-cell layer proved (attributes of blank cells are not carried by '
+               'clear_rows/scroll signals; cursor signals are outside get_pixels/get_chars). Envelope of the theorems '
+               '(every recorded op is checked against it): discharged in Coq / by regenerated checks for the scroll-area '
+               'and screen-height call sites (clear_view, clear, redraw_bar, scroll()) and for "no dirty row inside a '
+               'cleared range" (state invariant + call-graph check that clear_rows is not reachable inside '
+               'collect_updates()); still assumed: rows/columns derived from the cursor position (put_char_attr, '
+               'insert/delete, clear_row_from, scroll(row), scroll_down(row+1): C36 cursor-in-screen), pixel '
+               'rectangles from GraphicsViewPort/framebuffer (C30/C31 clipping), and the exact exclusion: a scroll '
+               'through text row 25 of the 348-line Hercules mode (C35_scroll_exclusion_exact).')
     RULE = ('random histories (3-16 statements) of PRINT incl. wrap/scroll/control characters, CLS, COLOR, LOCATE, '
             'VIEW PRINT, SCREEN mode and page switches, WIDTH, KEY ON/OFF, PCOPY, PSET/LINE/CIRCLE/PUT/PAINT/VIEW, '
             'video-memory POKE, console insert/delete/clear-line, on all 9 adapters + a DBCS codepage, a third of them with '
